@@ -65,10 +65,20 @@ def create_new_pairing(facts, res):
                     continue
                 t = owners[0]
                 tb = kids(t)[0]
+                # the owner must be created on every path that created the object: a task under a condition the allocation is not under
+                # leaves the object without an owner when the condition is false
+                cond_t = [a for a in tbf.ancestors(t) if a.get("k") in ("IfStmt", "SwitchStmt", "ConditionalOperator")]
+                cond_v = set(id(a) for a in tbf.ancestors(v))
+                extra = [a for a in cond_t if id(a) not in cond_v]
+                if extra:
+                    c0 = [y for y in kids(extra[0]) if y.get("k") != "DeclStmt"][0]
+                    res.violation(R, f, fn["qname"], key + ":conditional-owner", extra[0]["l"][1], "'%s' is allocated unconditionally but the only task that deletes it is created under `%s`: when that is false nothing releases the object (leak, once per group, level and execution)" % (v["name"], facts.ntext(c0)[:80]))
                 inside = set(id(x) for x in walk(t))
                 outside = [x for x in uses if id(x) not in inside]
+                # before the task exists the object is still the creator's alone; from the task directive on it may be deleted at any time
+                outside = [x for x in outside if (x["l"][1], x.get("b", 0)) > (t["l"][1], t.get("b", 0))]
                 if outside:
-                    res.violation(R, f, fn["qname"], key + ":creator-use", outside[0]["l"][1], "the creating thread uses '%s' after handing it to a task that deletes it" % v["name"])
+                    res.violation(R, f, fn["qname"], key + ":creator-use", outside[0]["l"][1], "the creating thread uses '%s' after the task that owns and deletes it has been created" % v["name"])
                 dels = [x for x in walk(tb) if x.get("k") == "CXXDeleteExpr" and strip(kids(x)[0]).get("did") == did]
                 if len(dels) != 1:
                     res.violation(R, f, fn["qname"], key + ":delete-count", t["l"][1], "task deletes '%s' %d times (exactly once expected): %s" % (v["name"], len(dels), "leak" if not dels else "double free"))
